@@ -675,7 +675,7 @@ func TestC20(t *testing.T) {
 	r.Assume("crash point model: the cache file holds a prefix of the bytes of a complete save (non-atomic os.Create + encode)")
 
 	// exhaustive over every prefix length of the cache files of generated books
-	nbooks := r.N(5, 40)
+	nbooks := r.N(5, 10)
 	hx.Sub(r, "books", nbooks, func(t *rapid.T) cacheCase {
 		return cacheCase{Games: genGames(t, 12, 12, false), Kind: "roundtrip", Twice: true}
 	}, func(c cacheCase, o *hx.Obs) *hx.Failure {
@@ -705,7 +705,7 @@ func TestC20(t *testing.T) {
 		return nil
 	})
 
-	hx.Sub(r, "corruptions", r.N(250, 4000), func(t *rapid.T) cacheCase {
+	hx.Sub(r, "corruptions", r.N(250, 1500), func(t *rapid.T) cacheCase {
 		return cacheCase{Games: genGames(t, 10, 10, false), Kind: rapid.SampledFrom([]string{"flip", "flip", "splice", "garbage", "prefix"}).Draw(t, "kind"),
 			Offset: rapid.IntRange(0, 5000).Draw(t, "off"), Byte: rapid.IntRange(0, 255).Draw(t, "byte"), Twice: rapid.Bool().Draw(t, "twice")}
 	}, propC20)
